@@ -358,7 +358,30 @@ pub fn send_data_indication(p: &ServerParams, payload: &Wr) -> Wr {
 pub fn license(p: &ServerParams) -> Wr {
     let mut w = Wr::new();
     w.u16le("sec.flags", 0x0080 | p.license_sec_extra).u16le("sec.flagsHi", 0);
-    if p.license_kind == 1 {
+    if p.license_kind >= 2 {
+        // other licensing messages a server with licensing enabled may send (MS-RDPELE); only used as base
+        // messages for the hostile scenarios, the client does not implement them
+        let mut body = Wr::new();
+        let typ: u8 = match p.license_kind { 2 => 0x01, 3 => 0x02, _ => 0x04 };
+        match p.license_kind {
+            2 => {
+                // SERVER_LICENSE_REQUEST: random, product info, key exchange list, certificate, scope list
+                body.bytes("licreq.serverRandom", &[0x5a; 32]).u32le("licreq.dwVersion", 0x00060000).u32le("licreq.cbCompanyName", 20).bytes("licreq.pbCompanyName", &[0x4d, 0, 0x53, 0, 0, 0, 0, 0, 0, 0, 0, 0, 0, 0, 0, 0, 0, 0, 0, 0])
+                    .u32le("licreq.cbProductId", 8).bytes("licreq.pbProductId", &[0x41, 0, 0x30, 0, 0x32, 0, 0, 0])
+                    .u16le("licreq.keyxBlobType", 0x000d).u16le("licreq.keyxBlobLen", 4).u32le("licreq.keyxAlg", 1)
+                    .u16le("licreq.certBlobType", 0x0003).u16le("licreq.certBlobLen", p.license_blob.len() as u16).bytes("licreq.cert", &p.license_blob)
+                    .u32le("licreq.scopeCount", 1).u16le("licreq.scopeBlobType", 0x000e).u16le("licreq.scopeBlobLen", 4).bytes("licreq.scope", b"ms\0\0");
+            }
+            3 => {
+                body.u32le("platch.connectFlags", 0).u16le("platch.blobType", 0).u16le("platch.blobLen", p.license_blob.len() as u16).bytes("platch.blob", &p.license_blob).bytes("platch.mac", &[0u8; 16]);
+            }
+            _ => {
+                body.u16le("upg.blobType", 0x0009).u16le("upg.blobLen", p.license_blob.len() as u16).bytes("upg.blob", &p.license_blob).bytes("upg.mac", &[0u8; 16]);
+            }
+        }
+        w.u8("lic.bMsgType", typ).u8("lic.flags", 0x03).u16le("lic.wMsgSize", (4 + body.len()) as u16);
+        w.append(&body);
+    } else if p.license_kind == 1 {
         let size = 4 + 4 + 4 + 4 + p.license_blob.len();
         w.u8("lic.bMsgType", 0xff).u8("lic.flags", 0x03).u16le("lic.wMsgSize", size as u16);
         w.u32le("lic.dwErrorCode", 7).u32le("lic.dwStateTransition", 2).u16le("lic.wBlobType", 4).u16le("lic.wBlobLen", p.license_blob.len() as u16).bytes("lic.blob", &p.license_blob);
